@@ -281,8 +281,11 @@ def options_stage(tools, work, rep, ev, tier, rng, cfg):
         return None
     write_cfg(cfg, spec="Spec", constants=dict(OC, Side='"attr"', MaxEntries=1, Emit=True), invariants=["EmitAttr"], deadlock=False)
     r = run_tlc("TarOpts", cfg, workers=1, timeout=600)
-    acases = [json.loads(t) for t in sorted(set(m.encode().decode("unicode_escape") for m in re.findall(r'<<"ATTR", "((?:[^"\\\\]|\\\\.)*)">>', r["out"])))]
+    acases = [json.loads(t) for t in sorted(set(m.encode().decode("unicode_escape") for m in re.findall(r'<<"ATTR", "((?:[^"\\]|\\.)*)">>', r["out"])))]
     ev.set("tar2sqfs_attribute_option_cases", len(acases))
+    if not acases:
+        print("SELF-CHECK-FAILED: no attribute option cases emitted")
+        return None
 
     def attr(i):
         c = acases[i]
@@ -325,8 +328,11 @@ def options_stage(tools, work, rep, ev, tier, rng, cfg):
     # ---- sqfs2tar side ----
     write_cfg(cfg, spec="Spec", constants=dict(OC, Side='"s2t"', Emit=True, MaxEntries=1), invariants=["EmitS2T"], deadlock=False)
     r = run_tlc("TarOpts", cfg, workers=1, timeout=900)
-    scases = [json.loads(m.encode().decode("unicode_escape")) for m in re.findall(r'<<"S2T", "((?:[^"\\\\]|\\\\.)*)">>', r["out"])]
+    scases = [json.loads(m.encode().decode("unicode_escape")) for m in re.findall(r'<<"S2T", "((?:[^"\\]|\\.)*)">>', r["out"])]
     ev.set("sqfs2tar_option_cases_emitted", len(scases))
+    if not scases:
+        print("SELF-CHECK-FAILED: no sqfs2tar option cases emitted")
+        return None
     src = work + "/optsrc.bin"
     open(src, "wb").write(b"shared content\n")
     pf = work + "/optimg.txt"
